@@ -368,6 +368,39 @@ func (e *env) tomb(idx int, key string, lo, hi int64) string {
 	return "ok"
 }
 
+// tombRace: a range delete on one file done the way the engine does it (BatchDelete:
+// DeleteRange, then Commit), with somebody asking the file for its tombstones in between —
+// what a snapshot for a backup, the statistics or the compaction planner do at any time.
+// Once the delete is committed the file must advertise its tombstone file: snapshots link it,
+// backups stream it, the planner schedules the file.
+func (e *env) tombRace(idx int, key string, lo, hi int64) string {
+	if idx < 0 || idx >= len(e.files) {
+		return "bad-op"
+	}
+	r := e.files[idx].r
+	touched := false
+	if vals, err := r.ReadAll([]byte(key)); err == nil {
+		for _, v := range vals {
+			if v.UnixNano() >= lo && v.UnixNano() <= hi {
+				touched = true
+			}
+		}
+	}
+	b := r.BatchDelete()
+	if err := b.DeleteRange([][]byte{[]byte(key)}, lo, hi); err != nil {
+		b.Rollback()
+		return "err:" + strings.ReplaceAll(err.Error(), " ", "_")
+	}
+	r.HasTombstones()
+	if err := b.Commit(); err != nil {
+		return "err:" + strings.ReplaceAll(err.Error(), " ", "_")
+	}
+	if touched && (!r.HasTombstones() || !r.TombstoneStats().TombstoneExists) {
+		return "TOMBSTONE-NOT-ADVERTISED the file holds a committed tombstone, HasTombstones/TombstoneFiles say it has none"
+	}
+	return "ok"
+}
+
 // snapshot: writes (in order, duplicates allowed) go to a cache, the cache snapshot is written
 // out by Compactor.WriteSnapshot
 func (e *env) snap(spec string) string {
@@ -526,6 +559,8 @@ func step(e *env, op string) (res string) {
 		return e.writeFile(int(i64(f[1])), int(i64(f[2])), f[3])
 	case "tomb":
 		return e.tomb(int(i64(f[1])), f[2], i64(f[3]), i64(f[4]))
+	case "tombrace":
+		return e.tombRace(int(i64(f[1])), f[2], i64(f[3]), i64(f[4]))
 	case "compact":
 		return e.compact(f[1], int(i64(f[2])), int(i64(f[3])), false)
 	case "abort":
